@@ -204,8 +204,62 @@ def h_query_groups(ctx, highs):
     return "n=%d" % len(r)
 
 
+def h_query_mutate(ctx):
+    """The set a group query returns belongs to the caller: changing it and feeding it to SetGroups, or asking
+    again afterwards, must behave as if it had been a fresh set."""
+    firsts = [(0x05, 0x00), (0x00, 0xA0), (0x00, 0x00), (0xFF, 0x00), (0x81, 0x42)]
+    g0, g1 = firsts[ctx.fresh_choice("first", len(firsts))]
+    a = 7
+    u = M.Unit("gear", short=a, groups=(g1 << 8) | g0)
+    bus = M.Bus([u])
+    st, r = bus.run(S.QueryGroups(a))
+    if st != "ok" or not isinstance(r, set):
+        ctx.fail("query groups: %s %r" % (st, r), key="groups/raised")
+        return "raised"
+    edit_ = ctx.fresh_choice("edit", 3)
+    if edit_ == 0:
+        r.add(9)
+        r.discard(0)
+    elif edit_ == 1:
+        r.clear()
+    else:
+        r.update({1, 12})
+    want = sum(1 << i for i in r)
+    st, x = bus.run(S.SetGroups(a, r))
+    ctx.prove(st == "ok" and E.eq(u.groups, want),
+              "SetGroups with an edited copy of the queried set left other membership than requested",
+              key="groups/edited-result")
+    # ... and a later query of a unit answering with the same (or another) byte pattern is exact
+    lows, highs = [0x05, 0x00, 0xFF, 0x81, 0x0A], [0x00, 0xA0, 0x42]
+    h0, h1 = lows[ctx.fresh_choice("again_g0", len(lows))], highs[ctx.fresh_choice("again_g1", len(highs))]
+    u2 = M.Unit("gear", short=9, groups=(h1 << 8) | h0)
+    st, r2 = M.Bus([u2]).run(S.QueryGroups(9))
+    ctx.prove(st == "ok" and isinstance(r2, set) and r2 == {i for i in range(16) if ((h1 << 8) | h0) >> i & 1},
+              "a group query after an edited result reported %r for 0x%04x" % (r2, (h1 << 8) | h0),
+              key="groups/after-edited-result")
+    return "ok"
+
+
 REQUESTS = [set(), {0}, {15}, {0, 15}, {1, 2, 3, 8, 9}, set(range(16)), {5, 7, 10, 12, 14}]
 DESTS = ["short", "int", "group", "broadcast", "unaddressed"]
+
+
+def h_set_groups_fault(ctx, dk):
+    """The read-back of the current membership fails: the sequence stops with DALISequenceError before
+    changing anything, however the destination was given."""
+    kind = DESTS[dk]
+    a = 21
+    cur = ctx.fresh("cur", 0, 3) * 0x4081
+    fault, step, fk = _fault_fn(ctx, 2)
+    ctx.assume(step < 2)
+    u = M.Unit("gear", short=a, groups=cur)
+    bus = M.Bus([u], fault=fault)
+    st, r = bus.run(S.SetGroups(a if kind == "int" else A.GearShort(a), {1, 14}))
+    ctx.prove(st == "exc" and isinstance(r, DALISequenceError),
+              "silent/garbled read-back at step %d gave %s %r" % (step, st, r),
+              key="setgroups/fault-not-reported:%s-step%d-kind%d" % (kind, step, fk))
+    ctx.prove(E.eq(u.groups, cur), "membership changed although the read-back failed", key="setgroups/fault-changed")
+    return "fault"
 
 
 def h_set_groups(ctx, dk, ri, highs):
@@ -278,6 +332,9 @@ def cases(tier):
     cs = [Case("types-conforming-%d" % n, h_types_conforming, {"n": n}) for n in range(5)]
     cs.append(Case("types-stream", h_types_stream, {"L": L}))
     cs.append(Case("query-groups", h_query_groups, {"highs": highs}))
+    cs.append(Case("query-groups-edited", h_query_mutate, {}))
+    for dk in (0, 1):
+        cs.append(Case("set-groups-fault-%s" % DESTS[dk], h_set_groups_fault, {"dk": dk}))
     for dk in range(len(DESTS)):
         for ri in range(len(REQUESTS)):
             cs.append(Case("set-groups-%s-%d" % (DESTS[dk], ri), h_set_groups,
